@@ -1,7 +1,11 @@
 #!/bin/bash
-# usage: seed2eval.sh <id> <demo dest> <pkg> <run>  — duplicate check vs round 1, confirm, scratch evaluation
+# usage: seed2eval.sh <id> <demo dest> <pkg> <run>  — duplicate check vs stored seeds, confirm, scratch evaluation
 id=$1
-a=$(grep '^[+-]' seeded/$id/patch.diff | grep -v '^+++\|^---' | sort | md5sum | cut -c1-8); b=$(grep '^[+-]' /tmp/seed/out/$id/patch.diff | grep -v '^+++\|^---' | sort | md5sum | cut -c1-8)
-if [ "$a" = "$b" ]; then echo "$id DUPLICATE of round 1"; exit 0; fi
+b=$(grep '^[+-]' /tmp/seed/out/$id/patch.diff | grep -v '^+++\|^---' | sort | md5sum | cut -c1-8)
+for d in seeded/${id} seeded/${id}b seeded/${id}c; do
+  [ -f $d/patch.diff ] || continue
+  a=$(grep '^[+-]' $d/patch.diff | grep -v '^+++\|^---' | sort | md5sum | cut -c1-8)
+  if [ "$a" = "$b" ]; then echo "$id DUPLICATE of $d"; exit 0; fi
+done
 ./seedconfirm.sh "$@"
 ./seedtry.sh /tmp/seed/out/$id/patch.diff $id 2>&1 | cut -c1-280
